@@ -155,6 +155,9 @@ def check(ctx):
                 muts = [e for e in I.events if e["kind"] == "mutate" and e["target"].term == scores.term]
                 hits = [e for e in I.events if e["kind"] == "mutate" and ("in", "scores") in e["target"].orig]
                 ctx.ob("R-EXCL", f"the scorer's own table is not modified by the mask [{cfg}]", not hits, f"in-place write into the scorer's table: `{hits[0].get('src')}`" if hits else "mask applied to a copy", ctx.site(P.method(base, "_get_best_new_selection")), cfg)
+    from .C02 import pick_rule
+
+    pick_rule(ctx, N, "R-EXCL", ("CUR", "PCovCUR", "FPS", "PCovFPS", "VoronoiFPS"))
     # ---------------- fit level: resolution, truncation, support --------------------------
     _fit_level(ctx, N)
     _support(ctx, N)
